@@ -2,4 +2,4 @@
 # MANIFEST.setup_cmd: build the Lean model, proofs and driver from files on disk (offline).
 set -e
 cd "$(dirname "$0")/lean"
-lake build PulserModel Proofs Properties pmdriver pm_layout pm_geom pm_ham pm_meas pm_wave pm_mod pm_codec
+lake build PulserModel Proofs Properties pmdriver pm_layout pm_geom pm_ham pm_meas pm_wave pm_mod pm_codec pm_switch
